@@ -51,7 +51,7 @@ func init() {
 		// between several kid-less keys must stay visible to FindMatchingKey)
 		{ID: "E1.keyset.remote.decoder-keeps-every-key", Fn: "client/rp.(*jsonWebKeySet).UnmarshalJSON", P: []string{"k", "data"}, Kind: "backedge", Pat: "backedge($raw.Keys)",
 			Why: "an iteration ends either with a key that could not be parsed or with that key appended to the set",
-			Req: []string{"fail($w.UnmarshalJSON(_)) || called(append($k.Keys, *$w)) || called(append($k.Keys, $w))"}},
+			Req: []string{"fail($w.UnmarshalJSON(_)) || didFail(UnmarshalJSON) || called(append($k.Keys, *$w)) || called(append($k.Keys, $w))"}},
 		{ID: "E1.keyset.remote.decoder-fails-only-on-malformed-document", Fn: "client/rp.(*jsonWebKeySet).UnmarshalJSON", P: []string{"k", "data"}, Kind: "ret fail",
 			Why: "an entry that cannot be parsed (unknown kty) is skipped; only a document that is not a JWKS at all fails the download",
 			Req: []string{"fail(json.Unmarshal($data, &$raw)) || fail(json.Unmarshal($data, $raw))"}},
@@ -124,8 +124,8 @@ func init() {
 			RunCallers(c, "E1.algs-table", "oidc.toJoseSignatureAlgorithms", []string{"oidc.CheckSignature"}, "the only constructor of a verification allow-list")
 			// each verifier's key set is configured by its own option only (a copy/paste slip between the two sibling options
 			// makes one verifier trust the other's keys)
-			RunFieldWriters(c, "E6.keyset.hint-writers", "op", "Provider", "idTokenHinKeySet", []string{"op.WithIDTokenHintKeySet"}, "the id_token_hint key set is set by WithIDTokenHintKeySet only")
-			RunFieldWriters(c, "E6.keyset.access-token-writers", "op", "Provider", "accessTokenKeySet", []string{"op.WithAccessTokenKeySet"}, "the access-token key set is set by WithAccessTokenKeySet only")
+			RunFieldWriters(c, "E6.keyset.hint-writers", "op", "Provider", "idTokenHinKeySet", []string{"op.WithIDTokenHintKeySet", "op.NewProvider"}, "the id_token_hint key set is set by the constructor (default, see E8.hint.keyset-default) and WithIDTokenHintKeySet only")
+			RunFieldWriters(c, "E6.keyset.access-token-writers", "op", "Provider", "accessTokenKeySet", []string{"op.WithAccessTokenKeySet", "op.NewProvider"}, "the access-token key set is set by the constructor (default, see E8.access-token.keyset-default) and WithAccessTokenKeySet only")
 			RunImplementers(c, "E7.keyset-table", "oidc", "KeySet", []string{"client/rp.remoteKeySet", "op.OpenIDKeySet", "op.jwtProfileKeySet"}, "each KeySet implementation needs a keyset obligation")
 		},
 	})
